@@ -315,11 +315,15 @@ def check_case(ctx, case, idx):
             return True
         ok = cmp('tests', sf.tests(b.c), tests, skip_t, 'cells_compared_tests')
         ok = ok and cmp('responses', sf.responses(b.c), resp, set(), 'cells_compared_responses')
+        # the same object asked again (state carried between calls must not matter)
+        ok = ok and cmp('tests (second call)', sf.tests(b.c), tests, skip_t, 'cells_compared_tests')
+        ok = ok and cmp('responses (second call)', sf.responses(b.c), resp, set(), 'cells_compared_responses')
         if ok and loc is not None:
             clk = sum(1 for p in case['patterns'] if 'launch' in p and 'P' in p['launch']['_pi'] and 'P' in p['capture']['_pi'])
             ctx.count('loc_with_clock', clk)
             ctx.count('loc_without_clock', len(case['patterns']) - clk)
-            cmp('tests_loc', sf.tests_loc(b.c), loc, skip_l, 'cells_compared_loc')
+            if cmp('tests_loc', sf.tests_loc(b.c), loc, skip_l, 'cells_compared_loc'):
+                cmp('tests_loc (second call)', sf.tests_loc(b.c), loc, skip_l, 'cells_compared_loc')
     ctx.case(None, stats['markers_inside'] > 0, key=[text, wit['netlist']])
     if idx < 2:
         ctx.sample({'style': case['style'], 'chains': [(c['si'], c['tokens'], c['so']) for c in case['chains']], 'stil_excerpt': text[-700:]})
